@@ -103,7 +103,7 @@ func tampers(genuineLen int, L, k int, thorough bool, bitStride int) []tamper {
 
 type scenario struct {
 	hf   hashFn
-	kind string // ads (real signed ads, strict selector) or map (generic chain, non-strict selector)
+	kind string // ads (real signed ads, strict selector), map (generic chain, non-strict selector), tree (generic DAG with fan-out, non-strict selector; L spine blocks, 3*L blocks), map@<size>
 	L    int
 	seg  int64
 	k    int // tampered block index
@@ -118,7 +118,7 @@ func firstLine(s string) string {
 
 func TestCheck(t *testing.T) {
 	r := vp.New("C02", "fault_enumeration",
-		"for every multihash function of the tier x chain kind (real signed advertisements with the strict selector; small generic map chains with the non-strict selector) x chain length L x segmented/unsegmented x every block-request position k: the body of block k is replaced by every single-bit flip (all bits of the small blocks, strided on real advertisements), every truncation length with consistent and with the original Content-Length, appended bytes (1, 1 KiB, 1 MiB), every other valid block of the chain, an empty body, the same node re-serialised with whitespace; then a healthy sync and a third sync tampered at another position on the same subscriber. Non-trivial: every tampered run. Distinct = distinct (scenario, tamper).",
+		"for every multihash function of the tier x chain kind (real signed advertisements with the strict selector; small generic map chains, and a generic DAG with fan-out in which every block is followed by further requests of the same walk, with the non-strict selector) x chain length L x segmented/unsegmented x every block-request position k: the body of block k is replaced by every single-bit flip (all bits of the small blocks, strided on real advertisements), every truncation length with consistent and with the original Content-Length, appended bytes (1, 1 KiB, 1 MiB), every other valid block of the chain, an empty body, the same node re-serialised with whitespace; then a healthy sync and a third sync tampered at another position on the same subscriber. Non-trivial: every tampered run. Distinct = distinct (scenario, tamper).",
 		"hash functions are trusted to be collision resistant for the enumerated single alterations",
 		"quick tier strides bit flips and truncations of real advertisements (every 11th); small map blocks are enumerated bit by bit",
 	)
@@ -148,6 +148,13 @@ func TestCheck(t *testing.T) {
 				}
 			}
 		}
+	}
+	// a DAG with fan-out (every spine block links to a leaf before and a leaf
+	// after its link to the older spine block), synced with the non-strict
+	// selector: every block has requests, or local hits, that follow it in the
+	// same walk. k runs over all 3*L blocks.
+	for k := 0; k < 3*L; k++ {
+		scs = append(scs, scenario{fns[0], "tree", L, -1, k})
 	}
 	// block sizes at and just above powers of two (where read buffers and size
 	// limits live), up to 4 MiB: untouched, with appended bytes, substituted, empty
@@ -184,6 +191,9 @@ func build(sc scenario) *built {
 	var opts []dagsync.Option
 	if sc.kind == "ads" {
 		ch = syncfx.BuildAdChain(p.Src, id, sc.L, lp, "c02")
+	} else if sc.kind == "tree" {
+		ch = syncfx.BuildMapTree(p.Src, sc.L, lp, "c02")
+		opts = append(opts, dagsync.StrictAdsSelector(false))
 	} else if strings.HasPrefix(sc.kind, "map@") {
 		var size int
 		fmt.Sscanf(sc.kind, "map@%d", &size)
@@ -224,7 +234,11 @@ func runScenario(t *testing.T, r *vp.Recorder, sc scenario, thorough bool) {
 	scKey := fmt.Sprintf("%s|%s|L%d|seg%d|k%d", sc.hf.name, sc.kind, sc.L, sc.seg, sc.k)
 	var tms []tamper
 	if !strings.HasPrefix(sc.kind, "map@") {
-		tms = tampers(glen, sc.L, sc.k, thorough, stride)
+		nblocks := sc.L
+		if sc.kind == "tree" {
+			nblocks = 3 * sc.L
+		}
+		tms = tampers(glen, nblocks, sc.k, thorough, stride)
 	} else {
 		// large blocks: the untouched body (must be accepted), appended bytes,
 		// substitution, empty (no per-bit and per-length families)
